@@ -39,10 +39,10 @@ Fixpoint flags_of (tbl : list (proto * (bool * bool))) (p : proto) : option (boo
   | (p', f) :: r => if proto_eqb p p' then Some f else flags_of r p
   end.
 
-Definition injections := (option exk * option exk * option exk * option exk * option exk * option exk * option exk)%type.
+Definition injections := (option exk * option exk * option exk * option exk * option exk * option exk * option exk * option exk)%type.
 Definition mk_scen (i : injections) (af dc : bool) : scen :=
-  let '(cr, de, di, ds, fn, se, rd) := i in
-  {| sc_create := cr; sc_decomp := de; sc_dispatch := di; sc_deser := ds; sc_fn := fn; sc_ser := se;
+  let '(rc, cr, de, di, ds, fn, se, rd) := i in
+  {| sc_recon := rc; sc_create := cr; sc_decomp := de; sc_dispatch := di; sc_deser := ds; sc_fn := fn; sc_ser := se;
      sc_redirect := rd; sc_after_on_fault := af; sc_doc_early := dc; sc_opaque := false |}.
 
 Definition ccase := (driver * list regop * desc * list (lid * ev * exk) * injections * proto
